@@ -54,6 +54,8 @@ def _scenario(draw, tier):
         for _ in range(draw(st.integers(0, 2))):
             q.append(["interval", draw(st.sampled_from([0.95, 0.5, 0.9, 0.1, 1.0, 0.999, 0.33])), draw(_burn), draw(_thin),
                       draw(st.sampled_from([None, None, 1, 2, 5, 17, 1000]))])
+        if draw(st.integers(0, 9 if cfg["kind"] != "ensemble" else 3)) == 0:
+            q.insert(draw(st.integers(0, len(q))), ["diag"])
         ops[-1].append(q)
     return dict(cfg=cfg, ops=ops, marginal=draw(st.booleans()), unimodal=draw(st.integers(0, 3)) == 0)
 
@@ -255,7 +257,21 @@ def execute(sc):
                 for q in queries:
                     if V:
                         break
-                    if q[0] == "readout":
+                    if q[0] == "diag":
+                        # diagnostics are read-only too: whatever they do, the chain must read out the same afterwards
+                        import matplotlib.pyplot as plt
+
+                        try:
+                            if h.kind == "ensemble":
+                                h.chain.plot_diagnostics()
+                            elif n >= 12:
+                                h.chain.plot_diagnostics(show=False)
+                            stats["diagnostic_calls"] += 1
+                        except Exception:  # noqa - whether the plot works is not C14's business
+                            pass
+                        finally:
+                            plt.close("all")
+                    elif q[0] == "readout":
                         b, t = _res(q[1], n), max(1, _res(q[2], n))
                         check_readout(V, h, S, P, b, t, stats)
                         if sc["marginal"] and not V:
